@@ -78,6 +78,10 @@ def run(ctx):
              "a\u0085b@x.org", "a\u2028@x.org", "a\u00a0b@x.org", "\uff1ca\uff1e@x.org", "a\u3000b@x.org", "\U0001f600@x.org", "\u00e9" * 32 + "@x.org", "\u00e9" * 33 + "@x.org", "a" * 62 + "\u00e9@x.org", "a" * 63 + "\u00e9@x.org", "a\uff20b@x.org",
              # a display text in front of an address in angle brackets is a mailbox, not an address
              " <a@x.org>", "x <a@x.org>", "Name <a@x.org>", "-oQ/tmp -X/tmp/log <bob@example.com>", "x>\r\nRSET\r\nMAIL FROM:<evil@example.org <bob@example.com>", "\0 <a@x.org>", "\"q\" <a@x.org>", "a@b.c <a@x.org>", "x <a@x.org> ", "x <a@[1.1.1.1]>"]
+    # every ASCII octet at the start, in the middle and at the end of a local part and of a domain label
+    for c in range(128):
+        ch = chr(c)
+        extra += [ch + "b@x.org", "a" + ch + "b@x.org", "a" + ch + "@x.org", "a@" + ch + "x.org", "a@x" + ch + "y.org", "a@x.or" + ch, '"a' + ch + 'b"@x.org']
     for _ in range(1500 if ctx.tier == "quick" else 40000):
         n = rng.randint(0, 12)
         extra.append("".join(rng.choice(ALPHA + ["b", "-", "é", "[", "]", ":", "2", "f", "＞", "­", "%", ":", "\u0085"]) for _ in range(n)))
